@@ -234,6 +234,7 @@ def unary_mul_case(case, res):
         for k in FACTORS:
             for kind, obj, fks, shp in factor_objects(k):
                 sub = dict(sub0, k=repr(k), kind=kind)
+                snap_before = _snap(obj)
                 wm = [pv * fk for fk in fks]
                 wd = [pv / fk for fk in fks]
                 res.state(("mul", n, f, k, kind))
@@ -258,12 +259,51 @@ def unary_mul_case(case, res):
                     res.transitions += 1
                     res.traces += 1
                     check_phase(res, case, f"div|{kind}", r, wd, sub, shape=shp)
+                if _snap(obj) != snap_before:
+                    res.violation(f"operand modified|{kind}", f"the {kind} operand was changed by * or / [{sub}]", case, sub)
             res.hits["factor kinds"] += 1
         # --- imaginary factors / divisors: i*i = -1, 1/i = -i
         for kc in (1j, 2j, -0.5j):
             kf = F(kc.imag)
             sub = dict(sub0, k=repr(kc))
-            for obj_kind, obj in (("python complex", kc), ("np.complex128", np.complex128(kc)), ("0-d array", np.array(kc))):
+            ro = np.broadcast_to(np.array(kc), (1,))                       # read-only view
+            strided = np.array([kc, 0, kc, 0])[::2][:1]
+            for obj_kind, obj in (("python complex", kc), ("np.complex128", np.complex128(kc)), ("0-d array", np.array(kc)),
+                                  ("1-d array", np.array([kc])), ("read-only array", ro), ("strided view", strided),
+                                  ("python complex (again)", kc), ("1-d array used twice", None)):
+                if obj_kind == "1-d array used twice":
+                    # the SAME array object as factor of two successive products: the second must equal the first
+                    obj = np.array([kc])
+                    if type(pim) is Phase and in_range(pv * kf):
+                        keep = obj.copy()
+                        r1 = attempt("imag*imag|array used twice", lambda: pim * obj, sub)
+                        r2 = attempt("imag*imag|array used twice", lambda: pim * obj, sub)
+                        res.transitions += 2
+                        if not np.array_equal(obj, keep):
+                            res.violation("operand modified|complex array factor", f"the factor array {keep!r} became {obj!r} [{sub}]", case, sub)
+                        elif r1 is not None and r2 is not None:
+                            check_phase(res, case, "imag*imag|array used twice", r2, [-pv * kf], sub, imag=False, shape=(1,))
+                        res.hits["same factor array used twice"] += 1
+                    continue
+                shp_ = (1,) if isinstance(obj, np.ndarray) and obj.ndim == 1 else None
+                if shp_ is not None:
+                    # array-shaped imaginary factors: same values, shape (1,)
+                    snap0 = obj.copy()
+                    if in_range(pv * kf):
+                        for nm, fn in (("p*k", lambda: p * obj), ("k*p", lambda: obj * p)):
+                            r = attempt(f"mul(imag)|{obj_kind}|{nm}", fn, sub)
+                            res.transitions += 1
+                            if r is not None:
+                                check_phase(res, case, f"mul(imag)|{obj_kind}|{nm}", r, [pv * kf], sub, imag=True, shape=(1,))
+                        if type(pim) is Phase:
+                            for nm, fn in (("pim*k", lambda: pim * obj), ("k*pim", lambda: obj * pim)):
+                                r = attempt(f"imag*imag|{obj_kind}|{nm}", fn, sub)
+                                res.transitions += 1
+                                if r is not None:
+                                    check_phase(res, case, f"imag*imag|{obj_kind}|{nm}", r, [-pv * kf], sub, imag=False, shape=(1,))
+                    if not np.array_equal(obj, snap0):
+                        res.violation("operand modified|complex array factor", f"the factor array {snap0!r} became {obj!r} [{sub}]", case, sub)
+                    continue
                 if in_range(pv * kf):
                     for nm, fn in (("p*k", lambda: p * obj), ("k*p", lambda: obj * p)):
                         r = attempt(f"mul(imag)|{obj_kind}|{nm}", fn, sub)
@@ -487,6 +527,17 @@ def divmod_case(case, res):
     res.sample({"count": n, "ops": "// % divmod np.divmod by 6 divisors x 4 kinds"}, 1)
 
 
+def _snap(obj):
+    """Bytes of an array-like operand (None for immutable scalars), to detect operands modified by an operation."""
+    if isinstance(obj, Phase):
+        return (np.asarray(obj["int"]).tobytes(), np.asarray(obj["frac"]).tobytes())
+    if isinstance(obj, (np.ndarray, u.Quantity)):
+        return np.asarray(getattr(obj, "value", obj)).tobytes()
+    if isinstance(obj, list):
+        return repr(obj)
+    return None
+
+
 def arrays_case(case, res):
     """The whole grid as ONE Phase array against scalar and array operands (array code paths, broadcasting)."""
     ns = np.array([n for n in COUNTS for _ in FRACS])
@@ -620,7 +671,7 @@ def check_case(case):
 def main(argv=None):
     return report.run_check(
         PID, gen_cases=gen_cases, check_case=check_case, describe=describe,
-        required_hits=["exact +-1/2 fraction", "imaginary phase", "factor kinds", "imaginary factor", "in-place real<->imaginary transitions", "addend kinds",
+        required_hits=["exact +-1/2 fraction", "imaginary phase", "factor kinds", "imaginary factor", "same factor array used twice", "in-place real<->imaginary transitions", "addend kinds",
                        "unit-mismatched addend rejected", "out= forms", "Phase divisor", "in-place remainder",
                        "remainder within 2^-52 of 0 or d (either neighbour accepted)", "whole grid as one array",
                        "trig/exp on fractional part", "construction kinds"],
